@@ -1588,7 +1588,17 @@ namespace xsimd
         template <class A, class T>
         XSIMD_INLINE batch<std::complex<T>, A> log(const batch<std::complex<T>, A>& z, requires_arch<generic>) noexcept
         {
-            return batch<std::complex<T>, A>(log(abs(z)), atan2(z.imag(), z.real()));
+            // a modulus in the denormal range has only a few significant bits: take the logarithm of |2^k z| there
+            // and subtract k log(2)
+            using real_batch = batch<T, A>;
+            constexpr T tiny = std::is_same<T, float>::value ? T(8.881784197001252e-16) /* 2^-50 */ : T(3.054936363499605e-151) /* 2^-500 */;
+            constexpr T up = std::is_same<T, float>::value ? T(1.2676506002282294e30) /* 2^100 */ : T(4.149515568880993e180) /* 2^600 */;
+            constexpr T log_up = std::is_same<T, float>::value ? T(69.31471805599453) : T(415.88830833596717);
+            real_batch m = max(abs(z.real()), abs(z.imag()));
+            auto is_tiny = m < real_batch(tiny) && m > real_batch(T(0));
+            real_batch scale = select(is_tiny, real_batch(up), real_batch(T(1)));
+            real_batch log_modulus = log(abs(batch<std::complex<T>, A>(z.real() * scale, z.imag() * scale))) - select(is_tiny, real_batch(log_up), real_batch(T(0)));
+            return batch<std::complex<T>, A>(log_modulus, atan2(z.imag(), z.real()));
         }
 
         // log2
